@@ -27,7 +27,7 @@ pub enum Dom { Off, Exact, Weak, Coord }
 #[derive(Clone, Copy, Debug, PartialEq, Eq, Hash)]
 pub enum Rank { Asc, Desc, Equal }
 #[derive(Clone, Copy, Debug, PartialEq, Eq, Hash)]
-pub enum MergeMode { Powerset, MaxIdx, MaxIdxUp }
+pub enum MergeMode { Powerset, MaxIdx, MaxIdxUp, MaxTop }
 
 /// Model level variation points (they are part of the *model*, not of the solver configuration)
 #[derive(Clone, Copy, Debug, PartialEq, Eq, Hash)]
@@ -356,7 +356,7 @@ impl Relaxation for Tm {
         if self.mode != MergeMode::Powerset && x != 0 {
             let top = 31 - x.leading_zeros();
             let single = x.count_ones() == 1;
-            x = if self.mode == MergeMode::MaxIdxUp && !single { 1 << (top + 1).min(self.s as u32 - 1) } else { 1 << top };
+            x = if self.mode == MergeMode::MaxIdxUp && !single { 1 << (top + 1).min(self.s as u32 - 1) } else if self.mode == MergeMode::MaxTop && !single { 1 << (self.s as u32 - 1) } else { 1 << top };
         }
         St { d, x }
     }
